@@ -232,6 +232,12 @@ def modelStepRaw (d : DState) (op : List String) (obs : List (List String)) : DS
   | ["plugin", "create"] => fin { d with st := pluginCreate d.st } []
   | ["plugin", "pre"] => fin { d with st := pluginPre d.st } []
   | ["plugin", "post"] => fin { d with st := pluginPost d.st } []
+  | ["plugin", "final", n] =>
+    match pluginFinal d.st (n.toNat?.getD 0) with
+    | none => fin d ["final empty"]
+    | some p =>
+      let truncated := obs.any (fun l => l.take 2 == ["report", "truncated"])
+      fin d ("final report" :: reportTextLine d.st p d.base :: reportLines d.st p truncated)
   | ["plugin", "ignore"] => fin d []
   | ["plugin", "expect", _] => fin d []
   | ["mrp", "create"] =>
